@@ -50,7 +50,7 @@ example : ∃ es : List Bytes, (∀ e ∈ es, e.length = 4) ∧ 2500 < es.length
   ⟨List.replicate 2501 [1, 2, 3, 4], by intro e he; rw [List.eq_of_mem_replicate he]; rfl,
    by rw [List.length_replicate]; omega⟩
 
-example : elementPosBin 2500 = 10020 ∧ elementPosFmt 4001 = 69017 := by decide
+example : elementPosBin 2500 = 10020 ∧ elementPosFmt 4001 = 69017 := by decide +kernel
 
 example : MiniStep.WF { seq := 1, id := 0, params := [[0, 0, 0, 0], [63, 128, 0, 0]] } := by
   simp [MiniStep.WF]
